@@ -331,26 +331,26 @@ def toCore : XPkt → Option Pkt
   | .timeEx h n => (toCore n).map (.timeEx h)
   | _ => none
 
-def xparsedAndRepack (k : XKind) (raw : Bytes) : Except String (List (String × J)) := do
-  let q := xparseTop k raw
+def xparsedAndRepack (cfg : XCfg) (k : XKind) (raw : Bytes) : Except String (List (String × J)) := do
+  let q := xparseTop cfg k raw
   match hasUnmodelledX q with
   | some c => throw s!"unmodelled:{c}"
   | none =>
-    match xpack none q with
+    match xpack cfg none q with
     | .ok b => pure [("parsed", J.arr (xchainJ q)), ("repack", J.ofBytes b)]
     | .error (.unmodelled c) => throw s!"unmodelled:{c}"
     | .error e => pure [("parsed", J.arr (xchainJ q)), ("repack_exc", J.str e.toString)]
 
 /-- the answer of the extended model; for chains of the ten original classes it must coincide with the original model
 (`packU`/`parseTop`), otherwise the request is answered with an error (= a correspondence failure) -/
-def xstack (top : String) (layers : List J) : Except String J := do
+def xstack (cfg : XCfg) (top : String) (layers : List J) : Except String J := do
   let k ← xkindOf top
   let p ← ofChainX layers
-  match xpackU none p with
+  match xpackU cfg none p with
   | .error (.unmodelled c) => throw s!"unmodelled:{c}"
   | .error e => pure (J.mk [("exc", J.str e.toString)])
   | .ok (p', bs) =>
-    let rest ← xparsedAndRepack k bs
+    let rest ← xparsedAndRepack cfg k bs
     let ans := J.mk ([("pack", J.ofBytes bs), ("built", J.arr (xchainJ p'))] ++ rest)
     match toCore p, k with
     | some c, .core ck =>
@@ -358,10 +358,16 @@ def xstack (top : String) (layers : List J) : Except String J := do
       | .ok (c', cbs) =>
         let q := parseTop ck cbs
         if cbs = bs ∧ (J.arr (chainJ c')).render = (J.arr (xchainJ p')).render
-            ∧ (hasUnmodelled q).isSome = false ∧ (J.arr (chainJ q)).render = (J.arr (xchainJ (xparseTop k bs))).render
+            ∧ (hasUnmodelled q).isSome = false ∧ (J.arr (chainJ q)).render = (J.arr (xchainJ (xparseTop cfg k bs))).render
         then pure ans else throw "original and extended model disagree"
       | .error _ => throw "original and extended model disagree (pack)"
     | _, _ => pure ans
+
+/-- the code variant the harness detected in the tree under test ({"cfg":{"rip_unsigned":b,"eap_body":b}}; absent = HEAD) -/
+def cfgOf (j : J) : Except String XCfg :=
+  match j.get? "cfg" with
+  | none => pure XCfg.head
+  | some c => do pure ⟨← c.boolean "rip_unsigned", ← c.boolean "eap_body"⟩
 
 def handle (j : J) : Except String J := do
   let op ← j.string "op"
@@ -374,12 +380,13 @@ def handle (j : J) : Except String J := do
       | none => d
     pure (J.mk [("code", J.ofNat (checksum d start skip)), ("spec", J.ofNat (rfc1071 z))])
   else if op = "stack" then
-    xstack (← j.string "top") (← j.array "layers")
+    xstack (← cfgOf j) (← j.string "top") (← j.array "layers")
   else if op = "mutparse" then
     -- pack with the model, damage the bytes ("trunc" n | "set" i v), parse the result: the malformed-input stream
+    let cfg ← cfgOf j
     let k ← xkindOf (← j.string "top")
     let p ← ofChainX (← j.array "layers")
-    match xpackU none p with
+    match xpackU cfg none p with
     | .error (.unmodelled c) => throw s!"unmodelled:{c}"
     | .error e => pure (J.mk [("exc", J.str e.toString)])
     | .ok (_, bs) =>
@@ -392,12 +399,12 @@ def handle (j : J) : Except String J := do
           let v ← m.nat "v"
           pure (if i < acc.length then acc.set i (UInt8.ofNat v) else acc)
         else throw "unknown mutation") bs
-      let rest ← xparsedAndRepack k raw
+      let rest ← xparsedAndRepack cfg k raw
       -- frames that stay inside the ten original classes must get the same answer from the original chain parser
       match k with
       | .core ck =>
         let q := parseTop ck raw
-        if (hasUnmodelled q).isSome = false ∧ (J.arr (chainJ q)).render ≠ (J.arr (xchainJ (xparseTop k raw))).render
+        if (hasUnmodelled q).isSome = false ∧ (J.arr (chainJ q)).render ≠ (J.arr (xchainJ (xparseTop cfg k raw))).render
         then throw "original and extended model disagree"
         else pure (J.mk ([("raw", J.ofBytes raw)] ++ rest))
       | _ => pure (J.mk ([("raw", J.ofBytes raw)] ++ rest))
